@@ -697,6 +697,24 @@ def check_C02(ctx):
     res_eq = correspond(ctx, eqc, fields, "values that start with =")
     st_eq = judge_sentences(ctx, eqc, res_eq, "C02")
     ctx.stream("values that start with =", 0, **st_eq)
+    # a value attached to the last option of a folded token is data: it may contain the letters of the flags folded in front of
+    # it ("-vo.venv" binds ".venv" to o and one "true" to v), of its own option and of any other option, and dashes and "="
+    fvd = [gen.mkopt("custom", "v verbose", custom=dict(gen.CUSTOM_FLAG), sbu=True), gen.mkopt("custom", "q", custom=dict(gen.CUSTOM_FLAG), sbu=True),
+           gen.mkopt("strings", "o out", sbu=True), gen.mkopt("strings", "I include", sbu=True), gen.mkarg("strings", "X", sbu=True)]
+    fvunits = [["-vo.venv"], ["-vIvendor/v2"], ["-vqovqv"], ["-qvIvv"], ["-ovo"], ["-vo", "v"], ["-vov=v"], ["-vo=vv"], ["-vvovv"], ["-qIqvIq"],
+               ["-I", "lib"], ["-v"], ["-qv"], ["-Io-v"], ["x"], ["--out=-vo"], ["-voI"], ["-vIo"]]
+    fvc = []
+    for sp in ("[OPTIONS] [X...]", "[-vqoI]... [X...]", "[-vq] [-o...] [-I...] [X...]", "(-v | -q | -o | -I)... [X]", "[-v...] [-q...] [-o...] [-I...]"):
+        for n in (1, 2, 3):
+            for us in itertools.product(fvunits, repeat=n):
+                fvc.append({"op": "run", "env": {}, "version": None, "root": gen.mkcmd("app", decls=copy.deepcopy(fvd), spec=sp, policy=0),
+                            "argv": [t for u in us for t in u]})
+    if len(fvc) > ctx.scale(5000, 30000):
+        fvc = [c for c in fvc if len(c["argv"]) <= 2] + ctx.rng.sample([c for c in fvc if len(c["argv"]) > 2], ctx.scale(4000, 28000))
+    number(fvc, start=6 * 10 ** 6)
+    res_fv = correspond(ctx, fvc, fields, "attached values containing the letters of folded flags")
+    st_fv = judge_sentences(ctx, fvc, res_fv, "C02")
+    ctx.stream("attached values containing the letters of folded flags", 0, **st_fv)
     res = correspond(ctx, cases, fields, "random specs, observable bindings")
     st1 = judge_sentences(ctx, cases, res, "C02")
     res2 = correspond(ctx, extra, fields, "ambiguous specs, all short command lines")
@@ -969,7 +987,10 @@ def check_C09(ctx):
                             ("-- X...", "X..."), ("[-a] X [ -- Y...]", "[-a] X [Y...]"),
                             # more than one -- in the spec: the first may sit in a part the line skips
                             ("[-- X] -- Y...", "[X] Y..."), ("(-o | (-- X)) -- Y...", "(-o | X) Y..."),
-                            ("[-a] -- X -- Y...", "[-a] X Y..."), ("[-a [-- X]] [-o] -- Y...", "[-a [X]] [-o] Y...")]:
+                            ("[-a] -- X -- Y...", "[-a] X Y..."), ("[-a [-- X]] [-o] -- Y...", "[-a [X]] [-o] Y..."),
+                            # an OPTIONAL -- in front of two positionals: the search reaches the same state with the same rest
+                            # of the line once with options open and once with options ended
+                            ("[--] X Y", "X Y"), ("[-a] [--] X Y...", "[-a] X Y..."), ("X [--] Y...", "X Y..."), ("[-o] [--] X Y", "[-o] X Y")]:
         for _ in range(ctx.scale(300, 3000)):
             head = rng.choice([[], ["-a"], ["p"], ["-a", "p"], ["-o", "v"], ["-o", "v", "p"]])
             tail = [rng.choice(tailtoks) for _ in range(rng.randint(0, 4))]
@@ -978,6 +999,12 @@ def check_C09(ctx):
                 root = gen.mkcmd("app", decls=decls, spec=sp, policy=0)
                 tails.append({"op": "run", "env": {}, "version": None, "root": root, "argv": argv, "_tag": tag,
                               "_head": head, "_tail": tail})
+    # ... and those four with every line of up to three tokens
+    for sp_dd in ("[--] X Y", "[-a] [--] X Y...", "X [--] Y...", "[-o] [--] X Y"):
+        for n in (0, 1, 2, 3):
+            for av in itertools.product(["-a", "--", "-o", "v", "-z", "p", "-o=v", "-"], repeat=n):
+                tails.append({"op": "run", "env": {}, "version": None, "root": gen.mkcmd("app", decls=decls, spec=sp_dd, policy=0),
+                              "argv": list(av), "_tag": "spec-dd", "_head": [], "_tail": []})
     res2 = correspond(ctx, tails, ["outcome", "trace", "values"], "tails after --")
     st_dd = judge_sentences(ctx, tails, res2, "C09")
     for c in tails:
